@@ -444,6 +444,12 @@ def _e_dyad_format2(a, b, backend):
         return backend.kg_asarray([backend.vec_fn2(x, y, lambda x, y: _e_dyad_format2(x, y, backend)) for x, y in zip(to_list(a), to_list(b))])
     if backend.np.isarray(a) and backend.np.isarray(b):
         return backend.np.asarray([backend.vec_fn2(x, y, lambda x, y: _e_dyad_format2(x, y, backend)) for x, y in zip(a, b)])
+    # Format2 is atomic, and vec_fn2 hands a list of numbers over whole:
+    # every member of "a" is a size for "b", every member of "b" is formatted with "a"
+    if is_list(a):
+        return backend.kg_asarray([_e_dyad_format2(x, b, backend) for x in a])
+    if is_list(b):
+        return backend.kg_asarray([_e_dyad_format2(a, y, backend) for y in b])
     return __e_dyad_format2(a, b, backend)
 
 def eval_dyad_format2(a, b, backend):
